@@ -24,7 +24,7 @@ def one(patch):
             return patch, [('APPLY', 3, r.stderr.strip()[-160:])]
         out = []
         for p in PROPS:
-            c = subprocess.run(['/venv/bin/python', '/verif/check.py', p, '--tier', 'quick', '--repo', tmp,
+            c = subprocess.run(['/venv/bin/python', os.environ.get('VERIF_ROOT', '/verif') + '/check.py', p, '--tier', 'quick', '--repo', tmp,
                                 '--evidence-dir', tmp], capture_output=True, text=True)
             if c.returncode != 0:
                 lines = re.findall(r'VIOLATED (R[0-9.]+ [^\n]*)|ANALYSIS-ERROR[^\n]*reason=([^\n]*)', c.stdout)
